@@ -1371,6 +1371,8 @@ int main(int argc, char** argv)
         }
         fputs(out.c_str(), stdout);
         fputc('\n', stdout);
+        // a sanitizer report ends the process without flushing: keep the output in step with the input
+        fflush(stdout);
     }
     fflush(stdout);
     return 0;
